@@ -4,6 +4,7 @@ import PyhmsVerif.Props.C08
 import PyhmsVerif.Props.C12Run
 import PyhmsVerif.Props.C02Log
 import PyhmsVerif.Props.C07Children
+import PyhmsVerif.Props.Witness
 /-!
 # C19 — a restored tree keeps satisfying the tree invariants
 
@@ -73,5 +74,12 @@ theorem C19_reachable_good {cfg : Cfg} {stks : List (List Problem.Wrapper)} {roo
     rw [this] at hpc; cases hpc
   have hc0 : t0.cfg = cfg := (C08.init_inv L hi).2
   exact (C19_continue (by rw [hc0]; exact hlim) h0 h).1
+
+/-- non-vacuity: the concrete run of `Props/Witness.lean` (a tree that sprouts a child and returns)
+satisfies the hypotheses, so every state of it — in particular its final state — is `Good` -/
+theorem witness_good : ∃ t, Good 1 t ∧ t.demes.length = 2 := by
+  obtain ⟨t0, t, hi, he, hl⟩ := Witness.run_exists
+  refine ⟨t, C19_reachable_good (L := 1) ?_ hi he, hl⟩
+  exact List.mem_append_right _ (by simp [Witness.cfg])
 
 end C19
